@@ -344,9 +344,13 @@ Attribution(r) ==
            /\ Agreement(r) = "agree"
         THEN {"Dev_MakeChildClimbEatsRoot"} ELSE {})
   \* (for C09 / C03 additionally: only the host-derived accessors may differ)
-  \cup (IF ((Has_(r, "self") /\ EmptyHostObs(r.self)) \/ (OutOk(r) /\ EmptyHostObs(r.out.ok)))
+  \cup (IF ((Has_(r, "self") /\ EmptyHostObs(r.self)) \/ (OutOk(r) /\ EmptyHostObs(r.out.ok))
+             \/ (Has_(r, "self_after") /\ EmptyHostObs(r.self_after)))
            /\ (Prop = "C09" /\ OutOk(r) /\ Has_(r, "twin") =>
                  UNION {C09_TwinDiff(r.out.ok, r.twin[k]) : k \in DOMAIN r.twin}
+                   \subseteq {"authority", "host", "host_port_subcomponent", "host_subcomponent", "human_repr", "raw_host"})
+           /\ (Prop = "C09" /\ Has_(r, "self_after") /\ Has_(r, "self_after_twin") =>
+                 C09_TwinDiff(r.self_after, r.self_after_twin)
                    \subseteq {"authority", "host", "host_port_subcomponent", "host_subcomponent", "human_repr", "raw_host"})
            /\ (Prop = "C03" /\ OutOk(r) /\ Has_(r, "reparse") => C03_DiffFields(r.out.ok, r.reparse) \subseteq {"host", "raw_host", "reparse-raises"})
         THEN {"Dev_EmptyHost"} ELSE {})
